@@ -210,6 +210,29 @@ func (f *FibStrategyTree) ClearNextHopsEnc(name enc.Name) {
 	}
 }
 
+// ReplaceNextHopsEnc atomically replaces all nexthops of the specified prefix
+// (FaceID -> Cost), so that concurrent lookups see either the old or the new set.
+func (f *FibStrategyTree) ReplaceNextHopsEnc(name enc.Name, nexthops map[uint64]uint64) {
+	f.fibStrategyRWMutex.Lock()
+	defer f.fibStrategyRWMutex.Unlock()
+
+	if len(nexthops) == 0 {
+		// Same as ClearNextHopsEnc
+		if node := f.root.findExactMatchEntryEnc(name); node != nil {
+			node.nexthops = make([]*FibNextHopEntry, 0)
+		}
+		return
+	}
+
+	name = name.Clone()
+	entry := f.fillTreeToPrefixEnc(name)
+	if entry.name == nil {
+		entry.name = name
+	}
+	entry.nexthops = sortedNextHops(nexthops)
+	f.fibPrefixes[name.Hash()] = entry
+}
+
 // RemoveNextHop removes the specified nexthop entry from the specified prefix.
 
 func (f *FibStrategyTree) RemoveNextHopEnc(name enc.Name, nexthop uint64) {
